@@ -155,7 +155,10 @@ def py_behaviour(kind, weighted, n, length, rng, xs=None):
             o = {"op": "set_edge_md", "k": key(), "md": _md(rng, 0.2)}
         elif r < 0.96:
             o = {"op": "set_h_md", "md": _md(rng, 0.2, hyper=True)}
-        elif r < 0.98:
+        elif r < 0.975 and kind != "mux":
+            k = key()
+            o = {"op": "set_inc_md", "k": k, "n": rng.choice(k["s"] + k["t"]), "md": _md(rng, 0.1)}
+        elif r < 0.985:
             # "weighted" is also a key the class itself keeps in the hypergraph-level metadata
             o = {"op": "set_attr_h", "f": rng.choice(["a", "b", "weighted"]), "v": rng.choice(["0", "1"])}
         else:
@@ -214,6 +217,10 @@ class Replayer:
             roll = self.rng.random() < self.query_prob
         if want and (self._final or op["op"] in ("new", "copy") or roll):
             ev["q"] = self.b.queries(self.objs[oid], self.universe, full=self.full, cc=self.cc)
+        if "q" not in ev and op["op"] in ("copy", "set_inc_md"):
+            imd = self.b.incidence_md(self.objs[oid])       # a copy must carry the incidence metadata too
+            if imd is not None:
+                ev["q"] = {"imd": imd}
         self.events.append(ev)
         return ev
 
